@@ -104,6 +104,8 @@ def run(ctx):
                 t.raw(pure.ev_u_op(uni, g, "mul", a, n=n))
             if a != "zero":
                 t.raw(pure.ev_u_dec(uni, g, unhx(a)))
+            for k in range(basic.L):          # a subgroup Element plus an arbitrary curve point, either order
+                t.raw(pure.ev_mixed_add(uni, g, k, a, (i + k) % 2))
             traces.append(t.to_json())
     encs = ["zero" if xy == (0, 1) else hx(basic_.encodepoint(xy)) for basic_ in [uni.basic["Ed25519"]] for n_, xy in P]
     t = Trace("Ed25519/unknown-group", uni)
@@ -112,6 +114,7 @@ def run(ctx):
         t.raw(pure.ev_u_op(uni, "Ed25519", "mul", a, n=[8, L, 2, 8 * L][i % 4]))
         if i % 2 == 0 and a != "zero":
             t.raw(pure.ev_u_dec(uni, "Ed25519", unhx(a)))
+        t.raw(pure.ev_mixed_add(uni, "Ed25519", 5 + i, a, i % 2))
         if len(t.events) >= 9:
             traces.append(t.to_json())
             t = Trace("Ed25519/unknown-group/%d" % i, uni)
